@@ -251,7 +251,7 @@ impl Ctx {
 
     fn noise(&self, slot: usize) {
         match self.case.noise {
-            0 => {}
+            0 | 3 => {}
             1 => {
                 if self.rnd(slot) % 8 == 0 {
                     std::thread::yield_now();
@@ -402,7 +402,12 @@ impl Ctx {
                     }
                     Mode::F => {
                         // delay before the first pull, so that later-spawned workers can get earlier chunks
-                        if self.case.noise >= 2 {
+                        if self.case.noise >= 3 {
+                            // the first worker runs alone for a long while
+                            if self.worker_begins.load(Relaxed) > 1 {
+                                std::thread::sleep(std::time::Duration::from_millis(60));
+                            }
+                        } else if self.case.noise >= 2 {
                             let r = self.rnd(slot);
                             match r % 4 {
                                 0 => std::thread::sleep(std::time::Duration::from_micros(
